@@ -7,7 +7,8 @@ capacity by any well-formed history** (`Reachable cap s g`): any sequence of wri
 sizes (committed, aborted or refused), up to any number of readers joining at any
 time, any per-read consumed counts, any accept/refuse toggles, in any interleaving
 of writer and reader operations.  The usage rules (`Op.wf`) are the API's: one
-writer alternating map / (commit | abort); a reader maps only when unmapped.
+writer (a map may replace a write that was never ended, an unmap may find nothing mapped, an abort ends a
+mapped write); a reader maps only when unmapped.
 
 `g.mem o = some x` reads "buffer byte `o` currently holds byte number `x` of the
 committed stream"; `nth s.idx i` is the stream position of reader `i`'s next
